@@ -269,6 +269,26 @@ def check_basic(res, name):
             _eq_calls(res, sub, a, with_entry(field, key, np.array([4.0])), False, f'{field}[{key!r}] arrays [4, 4] and [4] (same value, other shape)')
             _eq_calls(res, sub, a, with_entry(field, key, 4.0), False, f'{field}[{key!r}] array [4, 4] and the number 4')
             _eq_calls(res, sub, a, with_entry(field, key, np.array([4.0, 4.0, 4.0])), False, f'{field}[{key!r}] arrays of two and of three equal elements')
+    # entries that are tuples holding mutable members are copied in depth as well
+    if not name.startswith(('compound', 'sky_compound')):
+        for via in ('copy', 'deepcopy', 'copy_changes'):
+            q = pool.make(name)
+            q.visual['dashes'] = ([8, 3], 'pattern')
+            q.meta['range'] = (np.array([1.0, 2.0]), ['km/s'])
+            before = FP.fp(q)
+            sub = {'op': 'basic', 'name': name, 'sub': f'tuple entries via {via}'}
+            try:
+                c = q.copy() if via == 'copy' else (copy.deepcopy(q) if via == 'deepcopy' else q.copy(meta={'text': 'other'}))
+                c.visual['dashes'][0].append(99)
+                if 'range' in c.meta:
+                    c.meta['range'][0][0] = -5.0
+                    c.meta['range'][1].append('edited')
+            except Exception as exc:      # noqa: BLE001
+                res.violation(ID, 'copy_raises', sub, f'{via} / editing the copy raised {type(exc).__name__}: {exc}')
+                continue
+            if FP.fp(q) != before:
+                res.violation(ID, 'copy_shares_state', sub, f'{type(q).__name__}: editing the members of tuple-valued meta / visual entries of a {via} '
+                                                            f'changed the original: visual {dict(q.visual)!r}, meta {dict(q.meta)!r}')
     if name == 'regpoly':
         import regions
         a = regions.RegularPolygonPixelRegion(r.center, 5, r.radius, angle=r.angle)
